@@ -8,7 +8,10 @@ package batch
 //@ ghost anchorsWritten int
 //@ ghost addCalls int
 //@ ghost lastAdditional int
+// ghost: number of operations offered to Writer.Add (every deferred operation of a batch is offered again exactly once)
+//@ ghost addOffered int
 //@ ghost cutCalls int
+//@ ghost lastCutOK bool
 //@ ghost lastAnchorVersion uint64
 //@ ghost lastReaddVersion uint64
 //@ ghost lastHandler protocol.OperationHandler
@@ -22,8 +25,8 @@ package batch
 //@   ensures addCalls == old(addCalls) + 1 && lastReaddVersion == protocolVersion
 //@ iface batchCutter.Cut
 //@   results res, err
-//@   modifies cutCalls
-//@   ensures cutCalls == old(cutCalls) + 1
+//@   modifies cutCalls, lastCutOK
+//@   ensures cutCalls == old(cutCalls) + 1 && lastCutOK == (err == nil)
 //@   ensures err == nil ==> qopsNonNil(res.Operations)
 //@ iface Context.Anchor
 //@   ensures result != nil
@@ -44,6 +47,7 @@ package batch
 //
 //@ func (*Writer).Add
 //@   requires writerOK(r)
+//@   sets addOffered = addOffered + 1
 //@   ensures addCalls <= old(addCalls) + 1 && addCalls >= old(addCalls)
 //@   ensures addCalls == old(addCalls) + 1 ==> lastReaddVersion == protocolVersion
 //@   ensures addCalls == old(addCalls) ==> lastReaddVersion == old(lastReaddVersion)
@@ -54,15 +58,15 @@ package batch
 //@ func (*Writer).process
 //@   requires writerOK(r) && qopsNonNil(ops)
 //@   loop 1
-//@     invariant anchorsWritten == old(anchorsWritten) + 1 && addCalls <= old(addCalls) + _k
+//@     invariant anchorsWritten == old(anchorsWritten) + 1 && addCalls <= old(addCalls) + _k && addOffered == old(addOffered) + _k
 //@     invariant addCalls > old(addCalls) ==> lastReaddVersion == protocolVersion
 //@     invariant lastAnchorVersion == protocolVersion && lastHandler == handlerOf(verOf(r.protocol, protocolVersion))
-//@   ensures result == nil ==> anchorsWritten == old(anchorsWritten) + 1 && addCalls <= old(addCalls) + lastAdditional
+//@   ensures result == nil ==> anchorsWritten == old(anchorsWritten) + 1 && addCalls <= old(addCalls) + lastAdditional && addOffered == old(addOffered) + lastAdditional
 //@   ensures result != nil ==> anchorsWritten == old(anchorsWritten) && addCalls == old(addCalls)
 //   C20 glue: the batch is prepared by the handler of the version it was queued under, anchored and re-queued under it
 //@   ensures result == nil ==> lastAnchorVersion == protocolVersion && lastHandler == handlerOf(verOf(r.protocol, protocolVersion))
 //@   ensures addCalls > old(addCalls) ==> lastReaddVersion == protocolVersion
-//@   modifies anchorsWritten, addCalls, lastAdditional, lastAnchorVersion, lastReaddVersion, lastHandler
+//@   modifies anchorsWritten, addCalls, addOffered, lastAdditional, lastAnchorVersion, lastReaddVersion, lastHandler
 //
 // nack on any processing error, ack only after the anchor was written
 //@ func (*Writer).cutAndProcess
@@ -73,4 +77,7 @@ package batch
 //@   ensures err == nil && n > 0 ==> acks == old(acks) + 1 && nacks == old(nacks) && anchorsWritten == old(anchorsWritten) + 1
 //@   ensures err == nil && n == 0 ==> acks == old(acks) && nacks == old(nacks) && anchorsWritten == old(anchorsWritten)
 //@   ensures acks + nacks <= old(acks) + old(nacks) + 1
-//@   modifies anchorsWritten, addCalls, lastAdditional, acks, nacks, cutCalls, lastAnchorVersion, lastReaddVersion, lastHandler
+//   a batch that was cut is always settled: acknowledged after the anchor was written, or given back (nack) - never dropped
+//@   ensures err != nil && lastCutOK ==> nacks == old(nacks) + 1
+//@   ensures cutCalls == old(cutCalls) + 1
+//@   modifies anchorsWritten, addCalls, addOffered, lastAdditional, acks, nacks, cutCalls, lastCutOK, lastAnchorVersion, lastReaddVersion, lastHandler
